@@ -56,9 +56,9 @@ func c14Cases() int { return len(c14Kinds) * len(c14Timings) * len(c14Variants) 
 
 type flushWatch struct {
 	fs       *simfs.FS
-	flushed  map[*FrameRec]bool // requests whose tag has been acknowledged as flushed
-	begun    map[*FrameRec]bool // requests for which a backend call has begun
-	targetOf map[*FrameRec]*FrameRec
+	flushed  simrt.PMap[*FrameRec, bool] // requests whose tag has been acknowledged as flushed
+	begun    simrt.PMap[*FrameRec, bool] // requests for which a backend call has begun
+	targetOf simrt.PMap[*FrameRec, *FrameRec]
 	rcx      *RunCtx
 	off      bool
 }
@@ -68,8 +68,8 @@ func (fw *flushWatch) install(c *SrvConn) {
 		if fw.off || rep.Type != rc.TypeRflush {
 			return
 		}
-		x := fw.targetOf[req]
-		if x == nil || !fw.begun[x] {
+		x := fw.targetOf.Get(req)
+		if x == nil || !fw.begun.Get(x) {
 			// the statement binds the server only once the request is executing
 			return
 		}
@@ -78,7 +78,7 @@ func (fw *flushWatch) install(c *SrvConn) {
 				fw.rcx.Find("C14", "rflush-while-executing", call.Method, "Rflush for tag %d written while backend call %s made for %s is still running", x.Tag, call, x)
 			}
 		}
-		fw.flushed[x] = true
+		fw.flushed.Set(x, true)
 	}
 }
 
@@ -86,10 +86,10 @@ func (fw *flushWatch) onEnter(call *simfs.Call) {
 	if fw.off {
 		return
 	}
-	if x, ok := call.Req.(*FrameRec); ok && !fw.begun[x] {
-		fw.begun[x] = true
+	if x, ok := call.Req.(*FrameRec); ok && !fw.begun.Get(x) {
+		fw.begun.Set(x, true)
 	}
-	if x, ok := call.Req.(*FrameRec); ok && fw.flushed[x] && x.Reply == nil {
+	if x, ok := call.Req.(*FrameRec); ok && fw.flushed.Get(x) && x.Reply == nil {
 		fw.rcx.Find("C14", "call-after-rflush", call.Method, "backend call %s started for %s after the Rflush naming its tag was sent", call, x)
 	}
 }
@@ -120,7 +120,7 @@ func runC14(rcx *RunCtx) {
 		buildWorkloadTree(fs, 1, false)
 		w := NewWorld(nil, fs)
 		c := w.Connect()
-		fw := &flushWatch{fs: fs, flushed: map[*FrameRec]bool{}, begun: map[*FrameRec]bool{}, targetOf: map[*FrameRec]*FrameRec{}, rcx: rcx}
+		fw := &flushWatch{fs: fs, rcx: rcx}
 		fw.install(c)
 		fs.OnEnter = fw.onEnter
 		if !c.Start(8192, "9P2000.L.Google.7") || !kind.Prep(c) || !c.WalkTo(0, 7, "/d/b") {
@@ -157,7 +157,7 @@ func runC14(rcx *RunCtx) {
 		sendFlush := func(old uint16, target *FrameRec) *FrameRec {
 			f := c.Send(c.Tag(), &rc.Tflush{OldTag: old})
 			if target != nil && target.Reply == nil {
-				fw.targetOf[f] = target
+				fw.targetOf.Set(f, target)
 			}
 			return f
 		}
